@@ -59,10 +59,14 @@ func genC14(seed uint64, idx int, tier string) *Scenario {
 		} else {
 			nc.ARPPeers = append(nc.ARPPeers, p.IP)
 		}
-		// same address, different port for some peers (state-table lookups by 4-tuple)
+		// same address, different port for some peers - and the same port pair from different
+		// addresses for others (state-table lookups are by the full 4-tuple)
 		if i > 0 && r.Chance(0.3) {
 			p.IP = peers[0].IP
 			p.ViaGW = peers[0].ViaGW
+		} else if i > 0 && r.Chance(0.4) {
+			p.Port = peers[0].Port
+			p.DPort = peers[0].DPort
 		}
 		peers = append(peers, p)
 		a := Actor{Kind: "tcppeer", Name: fmt.Sprintf("p%d", i), Src: fmt.Sprintf("%s:%d", p.IP, p.Port), Dst: fmt.Sprintf("127.0.0.1:%d", p.DPort)}
@@ -143,6 +147,8 @@ type peerState struct {
 	finAcked bool
 	viol     string
 	dataAcks int
+	needAck  bool   // a data segment was sent whose acknowledgement has not been seen yet
+	wantAck  uint32 // the acknowledgement number it must carry
 }
 
 type c14Run struct {
@@ -256,10 +262,16 @@ func c14Execute(t *testing.T, sc *Scenario) *c14Run {
 						if d.Ack == want+1 && d.Flags&tcpACK != 0 {
 							ps.finAcked = true
 						}
+						if d.Flags&tcpACK != 0 && ps.needAck && (d.Ack == ps.wantAck || d.Ack == ps.wantAck+1) {
+							ps.needAck = false
+						}
 					} else if d.Flags&tcpACK != 0 && d.Ack != want {
 						ps.fail("wrong-ack-number|frame (flags %#x) acknowledges %d, expected ISN+1+%d = %d", d.Flags, d.Ack, ps.sentBytes, want)
 					} else if d.Flags&tcpACK != 0 && len(d.Payload) == 0 && d.Flags&tcpFIN == 0 {
 						ps.dataAcks++
+					}
+					if d.Flags&tcpACK != 0 && ps.needAck && d.Ack == ps.wantAck {
+						ps.needAck = false
 					}
 					if d.Flags&tcpFIN != 0 {
 						ps.finSeen = true
@@ -303,6 +315,10 @@ func c14Execute(t *testing.T, sc *Scenario) *c14Run {
 				ps.seq += uint32(len(b))
 				ps.sentBytes += uint32(len(b))
 				ps.stream = append(ps.stream, b...)
+				if len(b) > 0 && ps.haveSrv {
+					ps.needAck = true
+					ps.wantAck = ps.ISN + 1 + ps.sentBytes
+				}
 				if op.Note == "psh" && ps.firstPush == 0 {
 					ps.firstPush = len(ps.stream)
 				}
@@ -320,6 +336,13 @@ func c14Execute(t *testing.T, sc *Scenario) *c14Run {
 				synctest.Wait()
 				if seen == before && len(sys.SentFrames()) == seen {
 					break
+				}
+			}
+			// every data segment is acknowledged with exactly the bytes received so far
+			for _, ps := range run.peers {
+				if ps.needAck && ps.viol == "" {
+					ps.fail("data-not-acknowledged|after %d bytes no frame acknowledges %d (ISN %d + 1 + bytes received, modulo 2^32)", ps.sentBytes, ps.wantAck, ps.ISN)
+					ps.needAck = false
 				}
 			}
 			return ""
